@@ -179,20 +179,17 @@ var reDanglingLF = regexp.MustCompile(`^[eE][+-]?\n`)
 var reDanglingCR = regexp.MustCompile(`^[eE][+-]?\r`)
 var reSrcDanglingLF = regexp.MustCompile(`[0-9.][eE][+-]?\n`)
 
-// expectedGhost: the reading of the model's ghost flags in terms of the source alone.
-// bad[i]: some NUMBER token before token i has no exponent part and is directly followed in
-// the source by a dangling exponent ([eE][+-]?) and then CR or LF.  over: the stream ends with an ILLEGAL "didn't find
-// end quote/slash" token and the source ends with an odd number of backslashes.
-// ok=false when the true offset of a NUMBER token could not be determined (never on the
-// unchanged tree).
-func expectedGhost(src []byte, toks []gtok) (bad []bool, over bool, ok bool) {
+// expectedStarts: for every token other than ILLEGAL the offset of its first byte, found from
+// the reported position through the independent offset -> position map and the token's text
+// (-1 for ILLEGAL tokens). ok=false when an offset could not be determined (the position
+// oracle fails on the same token then).
+func expectedStarts(src []byte, toks []gtok) (starts []int, ok bool) {
 	m := posMap(src)
-	bad = make([]bool, len(toks))
-	flagged := false
+	starts = make([]int, len(toks))
 	lastK := -1
 	for i, t := range toks {
-		bad[i] = flagged
-		if flagged || t.tok == lexer.ILLEGAL {
+		if t.tok == lexer.ILLEGAL {
+			starts[i] = -1
 			continue
 		}
 		k := -1
@@ -202,29 +199,12 @@ func expectedGhost(src []byte, toks []gtok) (bad []bool, over bool, ok bool) {
 			}
 		}
 		if k < 0 {
-			return nil, false, false
+			return nil, false
 		}
 		lastK = k
-		if t.tok == lexer.NUMBER && !strings.ContainsAny(t.val, "eE") {
-			after := src[k+len(t.val):]
-			if reDanglingLF.Match(after) || reDanglingCR.Match(after) {
-				flagged = true
-			}
-		}
+		starts[i] = k
 	}
-	if bytes.IndexByte(src, 0) >= 0 {
-		// a NUL byte ends the lexer's input early; the reading of "over" below is for NUL-free sources
-		return bad, false, len(toks) == 0 || toks[len(toks)-1].tok != lexer.ILLEGAL
-	}
-	if n := len(toks); n > 0 && toks[n-1].tok == lexer.ILLEGAL &&
-		(toks[n-1].val == "didn't find end quote in string" || toks[n-1].val == "didn't find end slash in regex") {
-		run := 0
-		for j := len(src) - 1; j >= 0 && src[j] == '\\'; j-- {
-			run++
-		}
-		over = run%2 == 1
-	}
-	return bad, over, true
+	return starts, true
 }
 
 // checkLex evaluates the position equations on one token stream; reports the first failure.
@@ -648,8 +628,8 @@ func runLexCases(cases []lexCase, o hx.Opts, rep *hx.Report) {
 		rep.HarnessError("%v", err)
 		return
 	}
-	// the model's ghost flags (the guards of the partial theorems) against their reading in
-	// terms of the source text
+	// the model's ghost field tstart (the offset the position theorem speaks about) against the
+	// offset at which the token's text really is in the source
 	var glines []string
 	var gidx []int
 	for i, c := range cases {
@@ -668,33 +648,27 @@ func runLexCases(cases []lexCase, o hx.Opts, rep *hx.Report) {
 		if panicked || !strings.HasPrefix(model[i], "ok ") || model[i] != impl[i] {
 			continue
 		}
-		bad, over, ok := expectedGhost(cases[i].src, toks)
+		starts, ok := expectedStarts(cases[i].src, toks)
 		if !ok {
+			continue
+		}
+		gf := strings.Fields(strings.TrimPrefix(ghost[j], "ok"))
+		if len(gf) != len(toks) {
+			rep.Mismatch(hx.Mismatch{Class: "token-start:" + cases[i].origin, Input: glines[j], Impl: fmt.Sprint(starts), Model: ghost[j]})
 			continue
 		}
 		parts := make([]string, len(toks))
 		for k := range toks {
-			b, ov := "0", "0"
-			if bad[k] {
-				b = "1"
-			}
-			if over && k == len(toks)-1 {
-				ov = "1"
-			}
-			parts[k] = b + ":" + ov
-		}
-		want := strings.Join(parts, " ")
-		gf := strings.Fields(strings.TrimPrefix(ghost[j], "ok"))
-		for k := range gf {
-			if c := strings.SplitN(gf[k], ":", 2); len(c) == 2 {
-				gf[k] = c[1] // drop the start offset
+			parts[k] = strconv.Itoa(starts[k])
+			if starts[k] < 0 {
+				parts[k], gf[k] = "-", "-" // ILLEGAL: the theorem only says the position exists
 			}
 		}
 		rep.CorrEvals++
-		rep.Count("ghost:" + cases[i].origin)
-		if got := strings.Join(gf, " "); got != want {
-			rep.Mismatch(hx.Mismatch{Class: "ghost-flags:" + cases[i].origin, Input: glines[j], Impl: want, Model: got,
-				Note: "model ghost flags (bad:over per token) vs their source-level reading computed from the implementation's tokens"})
+		rep.Count("start:" + cases[i].origin)
+		if got, want := strings.Join(gf, " "), strings.Join(parts, " "); got != want {
+			rep.Mismatch(hx.Mismatch{Class: "token-start:" + cases[i].origin, Input: glines[j], Impl: want, Model: got,
+				Note: "model ghost tstart per token vs the offset at which the implementation's token text is in the source"})
 		}
 	}
 	for i, c := range cases {
